@@ -28,7 +28,8 @@ CONSTANTS
   Evil,      \* replicas that may replace entries they hold by tampered copies ({} = none)
   Kinds,     \* tamper kinds offered: "unsigned","missigned","nokey","payload","wrongkey","foreign"
   MaxBad,    \* bound on the number of tampered copies
-  PubOn      \* replicas that may publish their manifest (ToMultihash) ({} = never)
+  PubOn,     \* replicas that may publish their manifest (ToMultihash) ({} = never)
+  WriteFaults \* TRUE: the store may refuse the block write of an append
 
 VARIABLES
   U,      \* sequence of entry records (index = creation order = model CID)
@@ -96,6 +97,13 @@ AppendDenied(r, pc) ==
         /\ clk' = [clk EXCEPT ![r] = e.t]         \* the tick is kept
   /\ hist' = Append(hist, <<"A", r, pc>>)
   /\ UNCHANGED <<ents, heads, nidx, ident, pure, bad>>
+
+\* the store refuses the block: CreateEntryWithIO fails, Append returns the error; only the clock tick remains
+AppendWriteFault(r, pc) ==
+  /\ CanOp /\ WriteFaults
+  /\ LET e == NewEntry(r, pc) IN clk' = [clk EXCEPT ![r] = e.t]
+  /\ hist' = Append(hist, <<"AF", r, pc>>)
+  /\ UNCHANGED <<U, ents, heads, nidx, ident, pure, bad>>
 
 (***************************************************************************)
 (* Join (log.go l.510-618).  r = s is the "same instance" early return,    *)
@@ -205,7 +213,7 @@ Next ==
   \/ \E r \in PubOn : Publish(r)
   \/ \E r \in Evil, k \in Kinds : \E x \in ents[r] : Tamper(r, x, k)
   \/ \E r \in IterOn : \E o \in IterOptions(r) : Iterate(r, o)
-  \/ \E r \in R, pc \in PCs : AppendOk(r, pc) \/ AppendDenied(r, pc)
+  \/ \E r \in R, pc \in PCs : AppendOk(r, pc) \/ AppendDenied(r, pc) \/ AppendWriteFault(r, pc)
   \/ \E r, s \in R : JoinNoop(r, s) \/ JoinOk(r, s, -1) \/ JoinFail(r, s, -1)
   \/ \E r, s \in R, n \in Sizes : JoinOk(r, s, n) \/ JoinFail(r, s, n)
   \/ \E r \in R, w \in Writers : SetIdentity(r, w)
